@@ -43,22 +43,21 @@ def event_msgs(events, ch=0):
 
 
 def seq_abs(notes=(), events=(), dur=None, ch_events=0):
-    """Sequence built through add_absolute_message only (absolute view fresh, relative stale)."""
+    """Sequence built through add_absolute_message only (absolute view fresh, relative stale).
+    Messages are inserted in time order, at one tick offs, then signatures, then ons, so that a
+    well-formed description always yields a well-formed stored order."""
     s = Sequence()
-    for n in notes:
-        o, d, p = n[:3]
-        ch = n[3] if len(n) > 3 else 0
-        v = n[4] if len(n) > 4 else 64
-        s.add_absolute_message(on(o, p, ch, v))
-        s.add_absolute_message(off(o + d, p, ch))
-    for m in event_msgs(events, ch_events):
+    items, _ = timed_list(notes, events, None, ch_events)
+    for it in items:
+        m = it[4]
+        m.time = it[0]
         s.add_absolute_message(m)
     if dur is not None:
         s.add_absolute_message(cap(dur, ch_events))
     return s
 
 
-def timed_list(notes=(), events=(), dur=None):
+def timed_list(notes=(), events=(), dur=None, ch_events=0):
     """Description -> canonical sorted list of (tick, order, message) in a sane order:
     at one tick: offs, then signatures, then ons."""
     items = []
@@ -68,7 +67,7 @@ def timed_list(notes=(), events=(), dur=None):
         v = n[4] if len(n) > 4 else 64
         items.append((o, 2, p, ch, on(None, p, ch, v)))
         items.append((o + d, 0, p, ch, off(None, p, ch)))
-    for m in event_msgs(events):
+    for m in event_msgs(events, ch_events):
         t = m.time
         m.time = None
         items.append((t, 1, 0, 0, m))
